@@ -4,20 +4,20 @@ Alphabet: every workload of 1-3 chained Einsums over <= 4 tensors (1-2 inputs ea
 wiring) x 4 persistent-flag patterns; per (workload, Einsum) context the named sets All,
 Tensors, Inputs, Outputs, Intermediates, Shared, Persistent, Nothing, every tensor name of the
 workload, an Einsum-local rename and a top-level default rename; every expression tree of depth
-<= 1 over all atoms in every context (fully parenthesised; also with minimal parentheses in the
-structurally distinct contexts -- in every context and in two spacings in the thorough tier), every tree of depth <= 2 over 4-atom sub-alphabets in the contexts with
-distinct named-set structure, evaluated with the real ``eval_set_expression`` on the real
-per-Einsum symbol table; the depth <= 1 trees also through ``Spec._spec_eval_expressions`` in
-``tensors.keep / may_keep / no_refetch_from_above / no_resend_to_below``; dictionaries keyed
-by set expressions (ordered key sequences of <= 3 keys from 6 expressions, with ``Other`` at
-every position or absent) through ``bits_per_value`` / ``values_per_action`` of a Memory, an
-action, and the workload.  Oracle: R-set (mc/ref/setalg.py), frozenset algebra with
-complement inside the Einsum's tensors; ``Other`` = everything not covered; overlapping keys
-must raise.
+<= 1 over all atoms in every context (fully parenthesised; with minimal parentheses in the
+structurally distinct contexts; thorough: every spelling everywhere), every tree of depth <= 2
+over 4-atom sub-alphabets in the contexts with distinct named-set structure, evaluated with the
+real ``eval_set_expression`` on the real per-Einsum symbol table; the depth <= 1 trees also
+through ``Spec._spec_eval_expressions`` in ``tensors.keep / may_keep / no_refetch_from_above /
+no_resend_to_below``; dictionaries keyed by set expressions (ordered key sequences of <= 3 keys
+from 6 expressions, with ``Other`` at every position or absent) through ``bits_per_value`` /
+``values_per_action`` of a Memory, an action, and the workload; the workload-level
+``persistent_tensors`` expression; a tensor name as the source of a rename.  Oracle: R-set
+(mc/ref/setalg.py), frozenset algebra with complement inside the Einsum's tensors; ``Other`` =
+everything not covered; overlapping keys must raise.
 
 Mutation self-test (scratch copy /tmp/af-mut-c22 via VERIF_REPO, quick tier, copy removed
-afterwards).  On the unchanged tree the only violations are the triaged finding family
-``arch/Persistent-ignores-workload-persistent_tensors`` (330 cases).
+afterwards); families in addition to the two finding families listed below:
   M1 _setexpressions.InvertibleSet.__xor__ returns ``a | b``          -> CAUGHT, 26k violations
   M2 eval_set_expression_dict: overlap test disabled                  -> CAUGHT, 1860 violations
      (memory.bits_per_value|values_per_action/overlapping-keys-accepted[/with-Other])
@@ -28,7 +28,8 @@ afterwards).  On the unchanged tree the only violations are the triaged finding 
   M5 InvertibleSet.__invert__: ``full_space ^ instance``              -> not caught: EQUIVALENT
      (instance is always a subset of full_space, so ^ equals -)
 
-Findings on the unchanged tree (both triaged as genuine, each with its own family):
+Findings on the unchanged tree (both triaged as genuine, each with its own family; a 10-line
+candidate fix of workload.Einsum._eval_expressions makes this check silent):
   arch/Persistent-ignores-workload-persistent_tensors   the named set ``Persistent`` is built from the
       per-access flags *before* the workload-level ``persistent_tensors`` expression is applied, so
       the architecture sees ``Persistent`` without the tensors that expression marks persistent
@@ -500,9 +501,9 @@ def run_rename_tensor(wl, i, t, site):
 def make(wls, q):
     ctxs = contexts(wls)
     dctx = distinct_contexts(wls, ctxs)
-    d2_ctx = dctx if not q else dctx[:12]
+    d2_ctx = dctx if not q else dctx[:8]
     spec_ctx = dctx[:12] if q else dctx
-    dict_ctx = [c for c in dctx if len(wls[c[0]]["einsums"]) >= 2][:6 if q else 16]
+    dict_ctx = [c for c in dctx if len(wls[c[0]]["einsums"]) >= 2][:4 if q else 16]
     pers_ctx = [c for c in ctxs if not wls[c[0]]["persistent"] or wls[c[0]]["persistent"] == ["TR"]]
 
     def sub_alphabets(wl, i):
